@@ -117,8 +117,24 @@ def impl_fit(case, y=None):
     try:
         with np.errstate(all='ignore'):
             st, yfit = b.fit(x, yy, w)
-        return {'ok': {'status': int(st), 'yfit': [float(v) for v in yfit], 'coeff': [float(v) for v in b.coeff],
-                       'mask': [bool(v) for v in b.mask]}}
+        out = {'status': int(st), 'yfit': [float(v) for v in yfit], 'coeff': [float(v) for v in b.coeff],
+               'mask': [bool(v) for v in b.mask]}
+        if int(st) == -1 and y is None:
+            # history (what iterfit does): the SAME object is asked again with the SAME array objects; the answer must be the
+            # one a fresh object in the same state gives for fresh copies of the arrays
+            try:
+                with np.errstate(all='ignore'):
+                    b2 = make_obj(dict(case, mask=out['mask'], coeff=fb(out['coeff'])))
+                    st2, yf2 = b2.fit(x.copy(), yy.copy(), w.copy())
+                    st1, yf1 = b.fit(x, yy, w)
+                same = int(st1) == int(st2) and np.array_equal(np.asarray(b.coeff), np.asarray(b2.coeff), equal_nan=True) and \
+                    np.array_equal(np.asarray(b.mask), np.asarray(b2.mask))
+                if not same:
+                    out['history'] = 'second fit() on the same object and arrays gives status %d, a fresh object in the same state %d (coefficients %s)' % (
+                        int(st1), int(st2), 'equal' if np.array_equal(np.asarray(b.coeff), np.asarray(b2.coeff), equal_nan=True) else 'differ')
+            except Exception as e:
+                out['history'] = 'second fit() on the same object raises %s' % core.exc_kind(e)
+        return {'ok': out}
     except Exception as e:
         return {'err': core.exc_kind(e), 'frame': frame_of(e)}
 
@@ -326,6 +342,10 @@ def check_fit(ctx, case, impl, model, rnd=0):
     cls = info['cls']
     k = case['nord']
     ctx.count('fit:%s:%s:k=%d' % (cls, 'err:' + impl['err'] if 'err' in impl else 'status=%d' % impl['ok']['status'], k))
+    if 'ok' in impl and impl['ok'].get('history'):
+        if cls != 'outside':
+            ctx.violate('fit:history', impl['ok']['history'], case)
+        impl['ok'].pop('history')
     x, y, w = bf_(case['x']), bf_(case['y']), bf_(case['w'])
     # ---------------- oracle: a failure is a status code, never an exception (all classes inside the domain)
     if 'err' in impl:
